@@ -5,6 +5,7 @@ import (
 	"errors"
 	"fmt"
 	"io"
+	"time"
 
 	"golang.org/x/crypto/ssh"
 	"golang.org/x/crypto/ssh/agent"
@@ -124,4 +125,77 @@ func exoticIdentities(r *ev.Run) {
 			})
 		}
 	}
+}
+
+// idleAfterForward: a relayed request (one that takes the underlying agent a few seconds to answer, and an ordinary one),
+// then nothing for longer than any sensible exchange time-out, then ordinary use. The relayed replies come back whole,
+// and nothing armed for them outlives them: listing, signing, adding and removing work as on the first day.
+func idleAfterForward(r *ev.Run) {
+	c := r.Case("idle-after-forward", 0)
+	if c == nil {
+		return
+	}
+	r.Eval(1)
+	r.Guard(c, "forward, idle, use", nil, func() {
+		ag := wire.New()
+		defer ag.Close()
+		sock, err := ag.Listen()
+		if err != nil {
+			r.Inconclusive(err.Error())
+			return
+		}
+		k := gen.Pool()[3]
+		ag.Keyring.Add(agent.AddedKey{PrivateKey: k.Priv, Comment: "k"})
+		inner, err := shimagent.New(shimagent.Option{Address: sock})
+		if err != nil {
+			r.Violation(c, "shim-construction-fails-without-fault", err.Error(), nil)
+			return
+		}
+		hung := false
+		s := &sh.Guarded{Inner: inner, OnHang: func(op string) { hung = true; ag.Close() }}
+		slow := append([]byte{200}, []byte("answered-after-3.6-seconds")...)
+		ag.SetPlan(func(_ int, req []byte) wire.Action {
+			if bytes.Equal(req, slow) {
+				return wire.Action{Kind: wire.Honest, Delay: 3600 * time.Millisecond}
+			}
+			return wire.Action{Kind: wire.Honest}
+		})
+		bad := func(sig, detail string) { r.Violation(c, sig+":idle-after-forward", detail, nil) }
+		if resp, err := s.Forward(slow); err != nil || !bytes.Equal(resp, slow) {
+			bad("forward-fails-without-fault", fmt.Sprintf("a relayed request answered after 3.6 s: err=%v, %d reply bytes", err, len(resp)))
+			return
+		}
+		quick := append([]byte{200}, []byte("answered-at-once")...)
+		if resp, err := s.Forward(quick); err != nil || !bytes.Equal(resp, quick) {
+			bad("forward-reply-bytes-altered", fmt.Sprintf("the relayed request after the slow one: err=%v, reply %q", err, resp))
+			return
+		}
+		time.Sleep(5600 * time.Millisecond)
+		if hung {
+			bad("operation-does-not-return", "")
+			return
+		}
+		l, err := s.List()
+		if err != nil || len(l) != 1 {
+			bad("list-fails-without-fault", fmt.Sprintf("5.6 s after the last relayed request: %d identities, err=%v", len(l), err))
+			return
+		}
+		data := []byte("after the idle period")
+		if sig, err := s.Sign(k.Pub, data); err != nil || k.Pub.Verify(data, sig) != nil {
+			bad("sign-with-held-identity-fails", fmt.Sprintf("err=%v", err))
+			return
+		}
+		k2 := gen.Pool()[4]
+		if err := s.Add(agent.AddedKey{PrivateKey: k2.Priv, Comment: "k2"}); err != nil {
+			bad("add-fails-without-fault", err.Error())
+			return
+		}
+		if err := s.Remove(k2.Pub); err != nil {
+			bad("remove-of-held-identity-fails", err.Error())
+			return
+		}
+		s.Close()
+		r.Count("shims used again 5.6 s after relayed requests (one of them answered after 3.6 s)", 1)
+		r.Nontrivial("idle-after-forward")
+	})
 }
